@@ -767,7 +767,7 @@ func replayRules(c *Ctx, which string) {
 				ob.Fail(in.Pos(), "%s accesses the word array without the guard i < n", fname(f))
 			}
 			want := linSym("(" + linSym(i.Name()).String() + " / +64)")
-			if got := linOf(ia.Index, nil); !got.eq(want) {
+			if got := linOf(originAt(ia.Index, in), nil); !got.eq(want) {
 				ob.Fail(in.Pos(), "%s addresses word %s, expected i/64", fname(f), got)
 			}
 		})
